@@ -9,8 +9,12 @@ import subprocess
 import tempfile
 
 HERE = os.path.dirname(os.path.dirname(os.path.abspath(__file__)))
+import sys  # noqa: E402
+ONLY = set(sys.argv[1:])
 for mp in sorted(glob.glob(os.path.join(HERE, "seeded", "*", "meta.json"))):
     d = os.path.dirname(mp)
+    if ONLY and os.path.basename(d) not in ONLY:
+        continue
     meta = json.load(open(mp))
     scratch = tempfile.mkdtemp(prefix="vfdemo.", dir="/tmp")
     try:
@@ -18,16 +22,20 @@ for mp in sorted(glob.glob(os.path.join(HERE, "seeded", "*", "meta.json"))):
             os.makedirs(os.path.join(scratch, sub))
             subprocess.run("git -C /repo archive HEAD | tar -x -C %s" % os.path.join(scratch, sub), shell=True, check=True)
         ap = subprocess.run(["git", "apply", os.path.join(d, "patch.diff")], cwd=os.path.join(scratch, "mut"), capture_output=True)
+        fuzz = bool(ap.returncode)
         if ap.returncode:   # context shifted by later fix: commits: patch(1) with fuzz
             ap = subprocess.run("patch -p1 -s -F3 --no-backup-if-mismatch < %s" % os.path.join(d, "patch.diff"), shell=True,
                                 cwd=os.path.join(scratch, "mut"), capture_output=True)
+        if ap.returncode == 0 and subprocess.run("/venv/bin/python -m py_compile torrentfile/*.py", shell=True, cwd=os.path.join(scratch, "mut"),
+                                                 capture_output=True).returncode:
+            ap = subprocess.CompletedProcess([], 1)      # a fuzzily placed hunk that does not even compile: does not apply
         env = dict(os.environ, PYTHONDONTWRITEBYTECODE="1")
         rc = {}
         for sub in ("clean", "mut"):
             env["PYTHONPATH"] = os.path.join(scratch, sub)
             rc[sub] = subprocess.run(["/venv/bin/python", os.path.join(d, "demo.py")], cwd=scratch, env=env, capture_output=True, timeout=900).returncode
         head = subprocess.run(["git", "-C", "/repo", "log", "--format=%h", "-1"], capture_output=True, text=True).stdout.strip()
-        meta["at_head"] = {"head": head, "patch_applies": ap.returncode == 0, "demo_clean_exit": rc["clean"],
+        meta["at_head"] = {"head": head, "patch_applies": ap.returncode == 0, "applied_with_fuzz": fuzz and ap.returncode == 0, "demo_clean_exit": rc["clean"],
                            "demo_patched_exit": rc["mut"] if ap.returncode == 0 else None,
                            "still_violates": ap.returncode == 0 and rc["clean"] == 0 and rc["mut"] != 0}
         json.dump(meta, open(mp, "w"), indent=1)
